@@ -22,7 +22,11 @@ BUILD = os.path.join(VERIF, "build")
 CXX = "g++"
 
 HARNESS_SRCS = ["simrt.cpp", "oracle.cpp", "plan.cpp", "exec.cpp", "main.cpp"]
-REDEFINE_MEM = {"memcpy": "simw_memcpy", "memset": "simw_memset", "memmove": "simw_memmove"}
+REDEFINE_MEM = {"memcpy": "simw_memcpy", "memset": "simw_memset", "memmove": "simw_memmove",
+                # blocking primitives: simulated (wait by yielding, happens-before edges) inside multi-member regions
+                "pthread_mutex_lock": "simw_pthread_mutex_lock", "pthread_mutex_unlock": "simw_pthread_mutex_unlock", "pthread_mutex_trylock": "simw_pthread_mutex_trylock",
+                "pthread_once": "simw_pthread_once", "__cxa_guard_acquire": "simw___cxa_guard_acquire", "__cxa_guard_release": "simw___cxa_guard_release",
+                "__cxa_guard_abort": "simw___cxa_guard_abort"}
 REDEFINE_HEAP = {"malloc": "simw_malloc", "free": "simw_free", "calloc": "simw_calloc", "realloc": "simw_realloc",
                  "_Znwm": "simw_Znwm", "_Znam": "simw_Znam", "_ZdlPv": "simw_ZdlPv", "_ZdlPvm": "simw_ZdlPvm",
                  "_ZdaPv": "simw_ZdaPv", "_ZdaPvm": "simw_ZdaPvm"}
@@ -217,6 +221,12 @@ def selftest():
         os.makedirs(d, exist_ok=True)
         o = os.path.join(d, "selftest.o")
         r = sh([CXX, "-std=c++17", "-O2", "-g1", "-fopenmp", "-fsanitize=thread"] + NOBUILTIN + ["-I" + SIM, "-c", src, "-o", o])
+        if r.returncode == 0:
+            tpath = os.path.join(d, "redefine.txt")
+            with open(tpath, "w") as f:
+                for a, b in REDEFINE_MEM.items():
+                    f.write("%s %s\n" % (a, b))
+            r = sh(["objcopy", "--redefine-syms=" + tpath, o])
         if r.returncode == 0:
             r = sh([CXX, "-no-pie", "-o", binp, o] + simrt)
         if r.returncode != 0:
